@@ -56,6 +56,32 @@ impl<'a> Interp<'a> {
         for _ in 0..parts {
             self.parts.push(MPart::default());
         }
+        // a sibling topic in the same stream, filled before the ops start (its content must never matter to t1)
+        if self.case.sibling_segs > 0 {
+            let total = (self.cfg.segment_size.saturating_mul(self.case.sibling_segs as u64)).min(4_000_000);
+            let chunk = (self.cfg.segment_size / 2).clamp(16, 4000) as usize;
+            let n = self.node();
+            let r = n.block_on(async {
+                self.cl().create_topic(&sid(), "t2", 1, CompressionAlgorithm::None, None, Some(TOPIC + 1), IggyExpiry::NeverExpire, MaxTopicSize::Unlimited).await?;
+                let t2 = Identifier::numeric(TOPIC + 1).unwrap();
+                let mut sent = 0u64;
+                let mut k = 0u64;
+                while sent < total {
+                    let mut ms = vec![];
+                    for _ in 0..8 {
+                        k += 1;
+                        ms.push(iggy::messages::send_messages::Message::new(None, bytes::Bytes::from(msgs::fill(0x5151_0000 + k, chunk)), None));
+                        sent += chunk as u64;
+                    }
+                    self.cl().send_messages(&sid(), &t2, &Partitioning::partition_id(1), &mut ms).await?;
+                }
+                Ok::<(), IggyError>(())
+            });
+            if let Err(e) = r {
+                return Err(self.fail(&prop, "setup", format!("sibling topic: {e}")));
+            }
+            self.out.label("sibling-topic-with-data");
+        }
         Ok(())
     }
 
@@ -226,7 +252,12 @@ impl<'a> Interp<'a> {
                     return Err(self.fail("C15", "full-topic-accepted-send", format!(
                         "topic is at/above its limit {:?} with delete_oldest_segments=false but the send was accepted", self.size_bytes(&self.max_size.clone()))).tag("gate"))
                 }
-                (true, Err(IggyError::TopicFull(_, _))) => return self.unchanged_check("topic full"),
+                (true, Err(IggyError::TopicFull(_, _))) => {
+                    if matches!(target, Target::Balanced) {
+                        self.refused_balanced += 1;
+                    }
+                    return self.unchanged_check("topic full");
+                }
                 (true, Err(_)) => {
                     return Err(self.fail("C15", "full-topic-wrong-error", format!("expected a topic-full error, got {err_txt}")))
                 }
@@ -314,6 +345,10 @@ impl<'a> Interp<'a> {
         let Some(pid) = landed else {
             if any_could_be_empty || fixed_pid.map(|f| self.expected_kept((f - 1) as usize, &model_msgs).is_empty()).unwrap_or(false) {
                 self.out.label("send-all-duplicates");
+                if matches!(target, Target::Balanced) {
+                    // the send was accepted and took its turn in the rotation, but which partition it was is not observable
+                    self.balanced_run.clear();
+                }
                 return self.unchanged_check("all messages were duplicates");
             }
             return Err(self.fail(&prop, "acked-send-not-stored", format!(
@@ -413,6 +448,23 @@ impl<'a> Interp<'a> {
                 }
             }
             Target::Balanced => {
+                // C15: a send refused with topic-full changes nothing - not the rotation either: the first
+                // balanced send accepted afterwards lands where the rotation stood before the refusals
+                if self.refused_balanced > 0 {
+                    if let Some(last) = self.balanced_run.last().copied() {
+                        let exp = last % nparts as u32 + 1;
+                        self.out.label("balanced-send-after-refused-balanced-sends");
+                        if self.focus() == "C15" {
+                            self.out.nontrivial = true;
+                            if pid != exp {
+                                return Err(self.fail("C15", "refused-send-advanced-rotation", format!(
+                                    "the last accepted balanced send went to partition {last} of {nparts}; {} balanced send(s) were then refused with topic-full; the next accepted balanced send went to partition {pid} instead of {exp}: a refused send moved the rotation",
+                                    self.refused_balanced)).tag("gate"));
+                            }
+                        }
+                    }
+                }
+                self.refused_balanced = 0;
                 self.balanced_run.push(pid);
                 let w = nparts;
                 if self.balanced_run.len() >= w {
